@@ -346,6 +346,36 @@ pub fn c01_cases(rng: &mut Rng, tier: &str, out: &mut Out) {
         let plan = gen_plan(rng, layers);
         emit_read_case(rng, out, &format!("c01-{k}"), &plan, "c01");
     }
+    // EVERY interleaving of up to 5 (quick) / 6 (thorough) pieces of two files with piece sizes
+    // {0, 3}: empty pieces given to the file that is / is not the one being written, runs
+    // interrupted and resumed (layer-less: the model evaluates all of them)
+    let maxlen = if tier == "thorough" { 6 } else { 5 };
+    let names = vec![b"a".to_vec(), b"b".to_vec()];
+    let mut count = 0usize;
+    for len in 1..=maxlen {
+        for code in 0..(4usize.pow(len as u32)) {
+            let mut c = code;
+            let mut pieces = Vec::new();
+            for j in 0..len {
+                let f = c & 1;
+                let sz = if c & 2 != 0 { 3 } else { 0 };
+                c >>= 2;
+                pieces.push((f, (0..sz).map(|i| (16 * j + i + 1) as u8).collect::<Vec<u8>>()));
+            }
+            if len < maxlen {
+                // files started lazily, just before their first piece
+                let plan = Plan { names: names.clone(), pieces: pieces.clone(), layers: 0, level: 5, recipients: 1, reader_key: 0 };
+                emit_read_case(rng, out, &format!("c01-x{len}-{code}"), &plan, "c01");
+            }
+            // both files started up front (an empty piece starts a file and emits no content block)
+            let mut started = vec![(0usize, Vec::new()), (1usize, Vec::new())];
+            started.extend(pieces);
+            let plan = Plan { names: names.clone(), pieces: started, layers: 0, level: 5, recipients: 1, reader_key: 0 };
+            emit_read_case(rng, out, &format!("c01-s{len}-{code}"), &plan, "c01");
+            count += 1;
+        }
+    }
+    let _ = count;
 }
 
 pub fn full_read_ops(rng: &mut Rng, nfiles: usize) -> Vec<Vec<u64>> {
